@@ -80,6 +80,9 @@ def run_vh(ctx, programs, cfg=None, sequential=False, sanity=True, dump=False, t
         for d in res["diags"]:
             d["code"] = code_of(d["msg"])
             d["pkg"] = re.sub(r"^m\d+/", "m/", d["pkg"])
+        for key in ("ann", "marks"):
+            if res.get(key):
+                res[key] = {re.sub(r"^m\d+/", "m/", k): v for k, v in res[key].items()}
         out[res["id"]] = res
     if r.returncode != 0 or len(out) != len(programs):
         # the process died (a crash outside an analyzer's Run, e.g. a fatal error): find the culprit one by one
